@@ -11,6 +11,7 @@ with reopen points anywhere.
 import SwimVerif.Proofs.Stores
 import SwimVerif.Proofs.StoresHandover
 import SwimVerif.Proofs.StoresNeverLost
+import SwimVerif.Proofs.StoresCrash
 
 set_option linter.unusedVariables false
 namespace SwimVerif.Store
@@ -323,11 +324,124 @@ theorem C13_name_before_counter_would_collide :
     let crashed : Rocks.Plane := { lanes := [([108, 97, 110, 101, 47, 47, 97, 47, 120], 1)], counter := none }
     (Rocks.planeStep (Rocks.openPlane crashed) [47, 97] (.idFor [121])).2 = .id 1 := by decide
 
-/-- Support statement for the SIGKILL exploration (not provable here: RocksDB's WAL is trusted): the reopened
-database equals the fold of the acknowledged ops, optionally plus the one in flight. -/
-def C13_crash_acknowledged_prefix_open : Prop :=
+/-! ### crash cuts (SIGKILL at any moment)
+
+Trusted, not modelled: RocksDB's WAL — a single write is atomic, durable once returned, and writes become durable in
+program order.  What is proved is everything above that: which states the cuts of an op in flight can leave
+(`Rocks.crashCuts`, `Proofs/StoresCrash.lean`) and what the reopened store then is. -/
+
+/-- The support statement for the SIGKILL exploration as it was first written: "the reopened database equals the fold
+of the acknowledged ops, optionally plus the one in flight". -/
+def C13_crash_acknowledged_prefix : Prop :=
   ∀ (acked : List Op) (inflight : Op) (reopened : Rocks.St),
     Rocks.absSt reopened = (Rocks.srunOut (Rocks.absSt Rocks.init) acked).1 ∨
     Rocks.absSt reopened = (Rocks.srunOut (Rocks.absSt Rocks.init) (acked ++ [inflight])).1
+
+/-- As written it is false for a trivial reason: nothing ties `reopened` to the run (any database qualifies). -/
+theorem C13_crash_acknowledged_prefix_fails : ¬ C13_crash_acknowledged_prefix := by
+  intro h
+  rcases h [] .reopen { p0 := { lanes := [([1], 5)] } } with e | e
+  · exact absurd (congrArg (fun x => x.p0.ids [1]) e) (by decide)
+  · exact absurd (congrArg (fun x => x.p0.ids [1]) e) (by decide)
+
+/-- The intended reading: `reopened` is the recovery (`reopen`) of a crash cut — the state after a prefix of the
+RocksDB writes of the op in flight, on top of the acknowledged ops — and equals the specification's fold of the
+acknowledged ops, optionally plus the op in flight (handles forgotten). -/
+def C13_crash_acknowledged_prefix_cuts : Prop :=
+  ∀ (acked : List Op) (inflight : Op), (∀ o ∈ acked, Rocks.Op.idOk o) → Rocks.Op.idOk inflight →
+    ∀ crashed ∈ Rocks.crashCuts (Rocks.runOut Rocks.init acked).1 inflight,
+      Rocks.absSt (Rocks.recover crashed) = (Rocks.srunOut (Rocks.absSt Rocks.init) (acked ++ [.reopen])).1 ∨
+      Rocks.absSt (Rocks.recover crashed) = (Rocks.srunOut (Rocks.absSt Rocks.init) (acked ++ [inflight, .reopen])).1
+
+/-- This is false too, and for a real reason: `KeyStore::id_for` of a new name issues two separate writes
+(`merge_keyspace(counter)` then `put_keyspace(name)`); killed in between, the counter is advanced and the name is not
+stored — neither the state before `id_for` nor the state after it.  Witness: `open 0 0 /a` acknowledged,
+`id 0 "c"` in flight. -/
+theorem C13_crash_acknowledged_prefix_cuts_fails : ¬ C13_crash_acknowledged_prefix_cuts := by
+  intro h
+  have hm : Rocks.setPlane (Rocks.runOut Rocks.init [.opn 0 0 [47, 97]]).1 0
+        (Rocks.midIdFor (Rocks.getPlane (Rocks.runOut Rocks.init [.opn 0 0 [47, 97]]).1 0)) ∈
+      Rocks.crashCuts (Rocks.runOut Rocks.init [.opn 0 0 [47, 97]]).1 (.data 0 (.idFor [99])) :=
+    List.mem_cons_of_mem _ List.mem_cons_self
+  rcases h [.opn 0 0 [47, 97]] (.data 0 (.idFor [99])) (by intro o ho; simp at ho; subst ho; trivial) trivial _ hm with e | e
+  · exact absurd (congrArg (fun x => x.p0.next) e) (by decide)
+  · exact absurd (congrArg (fun x => x.p0.ids (Rocks.laneKey [47, 97] [99])) e) (by decide)
+
+/-- **Crash cuts, what does hold** (all acknowledged op sequences with reopen points, ids `< 2^56`, any op in flight,
+any cut): the reopened store satisfies the store invariant (so every refinement theorem above applies to whatever
+runs after the crash) and is, in the specification,
+* the fold of the acknowledged ops, or
+* the fold of the acknowledged ops plus the op in flight, or
+* — only when the op in flight is `id_for` of a name not yet stored — the fold of the acknowledged ops with one id
+  of that plane burnt (`next + 1`, nothing else changed). -/
+theorem C13_crash_acknowledged_prefix_partial (acked : List Op) (inflight : Op)
+    (hok : ∀ o ∈ acked, Rocks.Op.idOk o) (hok' : Rocks.Op.idOk inflight) (crashed : Rocks.St)
+    (hc : crashed ∈ Rocks.crashCuts (Rocks.runOut Rocks.init acked).1 inflight) :
+    Rocks.StInv (Rocks.recover crashed) ∧
+    (Rocks.absSt (Rocks.recover crashed) = (Rocks.srunOut (Rocks.absSt Rocks.init) (acked ++ [.reopen])).1 ∨
+     Rocks.absSt (Rocks.recover crashed) = (Rocks.srunOut (Rocks.absSt Rocks.init) (acked ++ [inflight, .reopen])).1 ∨
+     ∃ slot p uri name, inflight = .data slot (.idFor name) ∧
+       aget (Rocks.srunOut (Rocks.absSt Rocks.init) acked).1.slots slot = some (p, uri) ∧
+       (Rocks.sget (Rocks.srunOut (Rocks.absSt Rocks.init) acked).1 p).ids (Rocks.laneKey uri name) = none ∧
+       Rocks.absSt (Rocks.recover crashed) =
+         (Rocks.sstep (Rocks.sset (Rocks.srunOut (Rocks.absSt Rocks.init) acked).1 p
+           (Rocks.burn (Rocks.sget (Rocks.srunOut (Rocks.absSt Rocks.init) acked).1 p))) .reopen).1) := by
+  have r := Rocks.run_refines acked Rocks.init Rocks.stInv_init hok
+  obtain ⟨h1, h2⟩ := Rocks.crashCuts_cases _ r.1 inflight hok' crashed hc
+  refine ⟨h1, ?_⟩
+  rw [Rocks.srunOut_append, Rocks.srunOut_append, Rocks.srunOut_single, Rocks.srunOut_two, ← r.2.1]
+  rcases h2 with e | e | ⟨slot, p, uri, name, e1, e2, e3, e4⟩
+  · exact Or.inl e
+  · exact Or.inr (Or.inl e)
+  · exact Or.inr (Or.inr ⟨slot, p, uri, name, e1, e2, e3, e4⟩)
+
+/-- Non-vacuity (third shape): the mid-`id_for` cut after `open; id "b"; put 1`, reopened, has counter 2 and one stored
+name; the next `id_for` of a new name then returns 3 — id 2 is burnt, the value of id 1 is intact. -/
+example :
+    let s := (Rocks.runOut Rocks.init [.opn 0 0 [47, 97], .data 0 (.idFor [98]), .data 0 (.put 1 [170])]).1
+    let crashed := Rocks.setPlane s 0 (Rocks.midIdFor (Rocks.getPlane s 0))
+    crashed ∈ Rocks.crashCuts s (.data 0 (.idFor [99])) ∧
+    (Rocks.runOut (Rocks.recover crashed) [.opn 0 0 [47, 97], .data 0 (.idFor [99]), .data 0 (.idFor [98]),
+      .data 0 (.get 1)]).2 = [.ready, .id 3, .id 1, .some [170]] :=
+  ⟨List.mem_cons_of_mem _ List.mem_cons_self, by decide⟩
+
+/-- **Acknowledged prefix, observably**: whatever a client can read back from the reopened store — names ↦ ids,
+values, maps — is exactly that of the acknowledged ops, or of the acknowledged ops plus the one in flight; and id
+allocation after the crash is still fresh and collision free (all stored ids are `≤` the reloaded counter, no id
+belongs to two stored names), on both planes. -/
+theorem C13_crash_observable_acked_or_inflight (acked : List Op) (inflight : Op)
+    (hok : ∀ o ∈ acked, Rocks.Op.idOk o) (hok' : Rocks.Op.idOk inflight) (crashed : Rocks.St)
+    (hc : crashed ∈ Rocks.crashCuts (Rocks.runOut Rocks.init acked).1 inflight) :
+    (Rocks.SameData (Rocks.absSt (Rocks.recover crashed))
+        (Rocks.srunOut (Rocks.absSt Rocks.init) (acked ++ [.reopen])).1 ∨
+     Rocks.SameData (Rocks.absSt (Rocks.recover crashed))
+        (Rocks.srunOut (Rocks.absSt Rocks.init) (acked ++ [inflight, .reopen])).1) ∧
+    IdsInv 1 (Rocks.absSt (Rocks.recover crashed)).p0 ∧ IdsInv 1 (Rocks.absSt (Rocks.recover crashed)).p1 := by
+  have hi0 : IdsInv 1 (Rocks.abs {}) :=
+    ⟨by intro nm n h; simp [Rocks.abs, aget] at h, by intro a b n h; simp [Rocks.abs, aget] at h⟩
+  obtain ⟨_, h⟩ := C13_crash_acknowledged_prefix_partial acked inflight hok hok' crashed hc
+  rcases h with e | e | ⟨slot, p, uri, name, e1, e2, e3, e4⟩
+  · rw [e]
+    have i := Rocks.ids_srun (acked ++ [.reopen]) (Rocks.absSt Rocks.init) hi0 hi0
+    exact ⟨Or.inl (Rocks.sameData_refl _), i.1, i.2.1⟩
+  · rw [e]
+    have i := Rocks.ids_srun (acked ++ [inflight, .reopen]) (Rocks.absSt Rocks.init) hi0 hi0
+    exact ⟨Or.inr (Rocks.sameData_refl _), i.1, i.2.1⟩
+  · rw [e4, Rocks.srunOut_append, Rocks.srunOut_single]
+    have i := Rocks.ids_srun acked (Rocks.absSt Rocks.init) hi0 hi0
+    refine ⟨Or.inl (Rocks.sameData_burn _ p), ?_⟩
+    by_cases hp : p = 0
+    · simp only [Rocks.sstep, Rocks.sset, Rocks.sget, hp, ↓reduceIte]
+      exact ⟨Rocks.idsInv_burn i.1, i.2.1⟩
+    · simp only [Rocks.sstep, Rocks.sset, Rocks.sget, hp, ↓reduceIte]
+      exact ⟨i.1, Rocks.idsInv_burn i.2.1⟩
+
+/-- Non-vacuity (an `update_map` in flight, both cuts): reopened either without or with the entry. -/
+example :
+    let s := (Rocks.runOut Rocks.init [.opn 0 0 [47, 97], .data 0 (.idFor [98]), .data 0 (.upd 1 [0] [1])]).1
+    Rocks.crashCuts s (.data 0 (.upd 1 [255] [2])) = [s, (Rocks.step s (.data 0 (.upd 1 [255] [2]))).1] ∧
+    (Rocks.runOut (Rocks.recover s) [.opn 3 0 [47, 98], .data 3 (.read 1)]).2 = [.ready, .entries [([0], [1])]] ∧
+    (Rocks.runOut (Rocks.recover (Rocks.step s (.data 0 (.upd 1 [255] [2]))).1) [.opn 3 0 [47, 98], .data 3 (.read 1)]).2 =
+      [.ready, .entries [([0], [1]), ([255], [2])]] := ⟨rfl, by decide, by decide⟩
 
 end SwimVerif.Store
